@@ -608,7 +608,7 @@ func TestCheck(t *testing.T) {
 		budA = map[string]int{"da": 0, "crash": 0, "restart": 0, "sched": 0}
 	}
 	totalDev := vf.Pick(r, 2, 3)
-	stA := explore.Explore(explore.Config{Budgets: budA, Total: totalDev, Deadline: time.Until(deadline) / 2}, func(c *explore.Ctx) {
+	stA := explore.Explore(explore.Config{Budgets: budA, Total: totalDev, Free: []string{"config"}, Deadline: time.Until(deadline) / 2}, func(c *explore.Ctx) {
 		o := bodyAgg(t, c)
 		if o.fail != nil {
 			r.Report(vf.Violation{Clause: o.fail.Clause, Tags: append(o.tags, "sequencer-node"), Msg: fmt.Sprintf("[sequencer node] %s\n events: %v", o.fail.Msg, o.events), Cost: c.Cost(), History: map[string]any{"Part": "agg", "Choices": c.Choices()}})
